@@ -377,14 +377,21 @@ def suite_ldlt(ctx, core):
                 for j in range(n):
                     am[6*j] = am[6*j] + Q(40 + j)
             b = qarr((n,), rng, True)
-            lines.append(f"ldlt {n} | {line(am)} | {line(b)}")
-            a2, b2 = am.copy(), b.copy()
-            try:
-                solve(a2, b2)
-                exp.append(" ".join(fmt(v) for v in b2))
-            except Exception as e:
-                exp.append(f'raised {type(e).__name__}')
-            ctx.count(key=('ldlt', n, rep))
+            # the system as it is, and scaled by 2^-80 / 2^+60 (cell sizes
+            # fix no scale: the solver has to be invariant)
+            from fractions import Fraction as Fr
+            for sc_ in ([Fr(1)] if n > 8 else
+                        [Fr(1), Fr(1, 2**80), Fr(2**60)]):
+                ams = np.array([v*Q(sc_) for v in am], dtype=object)
+                bs = np.array([v*Q(sc_) for v in b], dtype=object)
+                lines.append(f"ldlt {n} | {line(ams)} | {line(bs)}")
+                a2, b2 = ams.copy(), bs.copy()
+                try:
+                    solve(a2, b2)
+                    exp.append(" ".join(fmt(v) for v in b2))
+                except Exception as e:
+                    exp.append(f'raised {type(e).__name__}')
+                ctx.count(key=('ldlt', n, rep, str(sc_)))
     out = common.run_driver(lines, jobs=14)
     bad = []
     skipped = 0
@@ -442,9 +449,36 @@ def suite_jit(ctx, core):
             if not err <= 1e-10*scale:
                 bad.append((KN[k], shp, nu, err, scale))
             ctx.count(key=('jit', k, shp, nu))
+    # the compiled banded solver is invariant under scaling by powers of two
+    # (exact in binary floating point): tiny and huge systems
+    for n in (1, 3, 6, 9):
+        for cplx in (False, True):
+            am = rng.standard_normal(6*n) + (1j*rng.standard_normal(6*n)
+                                             if cplx else 0)
+            am[::6] += 8.0
+            bv = rng.standard_normal(n) + (1j*rng.standard_normal(n)
+                                           if cplx else 0)
+            ref = bv.copy()
+            core.solve(am.copy(), ref)
+            for p2 in (-80, -40, 60):
+                x = bv*2.0**p2
+                core.solve(am*2.0**p2, x)
+                if not np.array_equal(x, ref):
+                    bad.append(('solve not scale invariant', n, p2,
+                                float(np.max(np.abs(x-ref)))))
+                    ctx.violation(
+                        'banded-solver-inexact',
+                        f'core.solve (compiled, n={n}): the solution of the '
+                        f'system scaled by 2^{p2} differs from the solution '
+                        f'of the system itself by '
+                        f'{float(np.max(np.abs(x-ref))):.3g} (scaling by a '
+                        f'power of two is exact)', {'n': n, 'power': p2})
+                    break
+            ctx.count(key=('solve-scale', n, cplx))
     ctx.oblige('correspondence: compiled smoothers == their Python source '
-               '(float64) within 1e-10 relative', 'correspondence', not bad,
-               str(bad[:2]))
+               '(float64) within 1e-10 relative; compiled core.solve '
+               'invariant under power-of-two scaling', 'correspondence',
+               not bad, str(bad[:2]))
     return bad
 
 
